@@ -308,7 +308,12 @@ def run(ck, F, tier):
     mir = rb.mir
     blocks = mir["blocks"]
     # locate the sender local: (tx, rx) = channel(); recv is called on rx
-    chan = [i for i, bb in enumerate(blocks) if bb["term"]["k"] == "call" and (bb["term"]["func"].get("fn") or "").endswith("mpsc::channel")]
+    chan = [i for i, bb in enumerate(blocks) if bb["term"]["k"] == "call" and (bb["term"]["func"].get("fn") or "").endswith(("mpsc::channel", "mpsc::sync_channel"))]
+    bounded = [i for i in chan if (blocks[i]["term"]["func"].get("fn") or "").endswith("sync_channel")]
+    ck.inst("G6", "result-channel-unbounded", bool(chan) and not bounded, rb.span,
+            "the worker->collector channel is mpsc::channel(): a worker's send never blocks, so every worker reaches its terminate check and can be joined"
+            if not bounded else "the worker->collector channel is bounded (sync_channel): after the collector's last recv() a worker can block in send() "
+            "forever and the join of that worker never returns (the run does not terminate under that schedule)")
     recv_b = [i for i, bb in enumerate(blocks) if bb["term"]["k"] == "call" and (bb["term"]["func"].get("fn") or "") == RECV and not bb.get("cleanup")]
     if len(chan) != 1 or len(recv_b) != 1:
         raise AnalysisError("do_run MIR: expected one mpsc::channel() and one recv()")
